@@ -78,6 +78,22 @@ def call_method(I, recv, name, args, kwargs):
             last = recv.at(z3.simplify(recv.length - 1))
             recv.length = recv.length - 1
             return last
+        if name == 'remove' and len(args) == 1 and recv.schema is not H.STR:
+            # list.remove(x): the FIRST element equal (here: identical - rule objects define no __eq__) to x goes; ValueError if there is none
+            if recv.heap is not None:
+                raise Unsupported('remove from a snapshot')
+            p = I.p
+            p.use_quantifier_mode()
+            x = H.obj_id(p, args[0])
+            k = H._bound_var(p)
+            if not p.choose(z3.Exists([k], z3.And(k >= 0, k < recv.length, z3.Select(recv.elems, k) == x))):
+                raise PyRaise(ExcVal(ValueError))
+            k0 = H._bound_var(p, 'first')
+            j = H._bound_var(p)
+            p.assume(z3.And(k0 >= 0, k0 < recv.length, z3.Select(recv.elems, k0) == x,
+                            z3.ForAll([j], z3.Implies(z3.And(j >= 0, j < k0), z3.Select(recv.elems, j) != x))))
+            H.lst_delete(I, recv, Sym('int', k0))
+            return None
         mm = I.p.engine.models.get(('method', 'SymList', name))
         if mm is not None:
             return mm.fn(I, [recv] + list(args), kwargs)
